@@ -33,6 +33,11 @@ def wrap(wrapper, target):
     }[wrapper]
 
 
+def ovr_attr(e):
+    o = e.get("ovr", "none")
+    return [f'#[typeshare({o}(type = "Overridden"))]'] if o not in ("none", "", None) else []
+
+
 def build_program(nodes, edges):
     """nodes: [{name, kind, renamed(bool)}], edges: [{src,dst,carrier,wrapper}] (0-based).
     Returns (items, nodes', edges') - Gen is appended as an extra node when a garg wrapper is used."""
@@ -52,14 +57,14 @@ def build_program(nodes, edges):
         if k == "generic_struct":
             items.append({"kind": "struct", "name": n["name"], "generics": ["T"], "fields": [{"name": "v", "ty": "T"}]})
         elif k == "struct":
-            fields = [{"name": f"f{j}", "ty": wrap(e["wrapper"], nodes[e["dst"]]["name"])} for j, e in enumerate(out)]
+            fields = [{"name": f"f{j}", "ty": wrap(e["wrapper"], nodes[e["dst"]]["name"]), "attrs": ovr_attr(e)} for j, e in enumerate(out)]
             items.append({"kind": "struct", "name": n["name"], "attrs": at, "fields": fields or [{"name": "x", "ty": "u32"}]})
         elif k == "tagged_enum":
             vs = [{"name": "U0", "kind": "unit"}]
             for j, e in enumerate(out):
                 t = wrap(e["wrapper"], nodes[e["dst"]]["name"])
                 if e["carrier"] == "vfield":
-                    vs.append({"name": f"S{j}", "kind": "struct", "fields": [{"name": "x", "ty": t}]})
+                    vs.append({"name": f"S{j}", "kind": "struct", "fields": [{"name": "x", "ty": t, "attrs": ovr_attr(e)}]})
                 else:
                     vs.append({"name": f"N{j}", "kind": "newtype", "ty": t})
             if len(vs) == 1:
@@ -118,6 +123,8 @@ def run_programs(chk, programs):
         for lang in LANGS:
             if lang in ("kotlin", "swift") and any(n["kind"] == "const" for n in nodes2):
                 continue  # write_const is todo!() there: C07's business
+            if any(e.get("ovr") == lang for e in edges2):
+                continue  # the reference is not written in this language
             jobs.append({"id": len(jobs), "lang": lang, "files": [{"src": src}], "cfg": CFG[lang]})
             meta.append((pi, lang, nodes2, edges2, items, src, tag))
     events, emeta, skipped = [], [], 0
@@ -158,7 +165,7 @@ def sig_for(lang, nodes, edges, count, start, mainpos):
                 sigs.append((f"C11/{lang}/renamed-target/use-before-def",
                              f"{nodes[a]['name']} (line {start[a]}) uses serde-renamed {nodes[b]['name']} defined later (line {mainpos[b]})"))
                 continue
-            sigs.append((f"C11/{lang}/{e['carrier']}/{e['wrapper']}/{'renamed' if nodes[b].get('renamed') else 'plain'}"
+            sigs.append((f"C11/{lang}/{e['carrier']}{'+override-for-' + e['ovr'] if e.get('ovr', 'none') != 'none' else ''}/{e['wrapper']}/{'renamed' if nodes[b].get('renamed') else 'plain'}"
                          f"/{nodes[b]['kind']}/use-before-def",
                          f"{nodes[a]['name']} (line {start[a]}) uses {nodes[b]['name']} through {e['carrier']}/{e['wrapper']} "
                          f"but {nodes[b]['name']} is defined at line {mainpos[b]}"))
@@ -214,7 +221,8 @@ def random_program(rng, n, cyclic):
                 continue
             carrier = {"struct": "field", "alias": "alias", "const": "const"}.get(k) or rng.choice(["newtype", "vfield"])
             wrappers = ["direct", "array"] if k == "const" else ["direct", "vec", "option", "mapk", "mapv", "array", "slice", "garg", "garg_unknown", "garg_nested"]
-            edges.append({"src": a, "dst": b, "carrier": carrier, "wrapper": rng.choice(wrappers)})
+            ovr = rng.choice(["scala", "typescript", "go"]) if carrier in ("field", "vfield") and rng.random() < 0.15 else "none"
+            edges.append({"src": a, "dst": b, "carrier": carrier, "wrapper": rng.choice(wrappers), "ovr": ovr})
     return nodes, edges
 
 
@@ -265,7 +273,7 @@ def run(chk):
         p = c["prog"]
         nodes = [{"name": "Aaa1", "kind": akind[p["carrier"]], "renamed": False},
                  {"name": "Bbb2", "kind": p["bkind"], "renamed": p["renamed"]}]
-        programs.append((nodes, [{"src": 0, "dst": 1, "carrier": p["carrier"], "wrapper": p["wrapper"]}], c["collected"]))
+        programs.append((nodes, [{"src": 0, "dst": 1, "carrier": p["carrier"], "wrapper": p["wrapper"], "ovr": p["ovr"]}], c["collected"]))
         predicted_missed += 0 if c["collected"] else 1
     chk.extra["model_predicts_uncollected_placements"] = predicted_missed
     chk.sample({"program": render.program(build_program(*programs[7][:2])[0])})
